@@ -248,3 +248,70 @@ func vCounterGraphs() (int, []string) {
 //@   props C19
 //@   modifies anything
 //@   call merge#1 assert[not-a-member-of-an-extends-cycle] arg1 == extendedCounter && (extends == "" || !haskey(previousTypes, system))
+
+// bounded stand-in (C19 / C01): fallback cycles reached through EVERY way a style can fail to represent a value: a
+// fixed style outside its symbols, an additive style whose weights cannot make the value, a value outside the range.
+// vFallbackGraphs renders -1, 1, 3 and 7 with each of three author styles for every assignment of (system: fixed
+// over two symbols | additive over 5 and 2 | symbolic restricted to 1..2) x (fallback: a | b | c | decimal) to the
+// three styles (1 728 graphs, self references and cycles included): the call returns a non-empty representation.
+func vFallbackGraphs() (int, []string) {
+	debug.SetMaxStack(64 << 20)
+	names := []string{"a", "b", "c"}
+	fallbacks := []string{"a", "b", "c", "decimal"}
+	sym := func(s string) pr.NamedString { return pr.NamedString{Name: "string", String: s} }
+	decimal := CounterStyleDescriptors{System: CounterStyleSystem{"", "numeric", 0}, Fallback: "decimal"}
+	for _, d := range []string{"0", "1", "2", "3", "4", "5", "6", "7", "8", "9"} {
+		decimal.Symbols = append(decimal.Symbols, sym(d))
+	}
+	style := func(k int) CounterStyleDescriptors {
+		d := CounterStyleDescriptors{Fallback: fallbacks[k%4]}
+		switch k / 4 {
+		case 0:
+			d.System, d.Symbols = CounterStyleSystem{"", "fixed", 1}, []pr.NamedString{sym("X"), sym("Y")}
+		case 1:
+			d.System = CounterStyleSystem{"", "additive", 0}
+			d.AdditiveSymbols = []pr.IntNamedString{{Int: 5, NamedString: sym("V")}, {Int: 2, NamedString: sym("II")}}
+		default:
+			d.System, d.Symbols = CounterStyleSystem{"", "symbolic", 0}, []pr.NamedString{sym("*")}
+			d.Range = pr.OptionalRanges{Ranges: [][2]int{{1, 2}}}
+		}
+		return d
+	}
+	n, fails := 0, []string{}
+	for ia := 0; ia < 12; ia++ {
+		for ib := 0; ib < 12; ib++ {
+			for ic := 0; ic < 12; ic++ {
+				choice := map[string]int{"a": ia, "b": ib, "c": ic}
+				done := make(chan string, 1)
+				go func() {
+					for _, start := range names {
+						for _, v := range []int{-1, 1, 3, 7} {
+							cs := CounterStyle{"decimal": decimal}
+							for _, nm := range names {
+								cs[nm] = style(choice[nm])
+							}
+							if r := cs.RenderValue(v, start); r == "" {
+								done <- fmt.Sprintf("a=%d b=%d c=%d: RenderValue(%d, %q) is empty", ia, ib, ic, v, start)
+								return
+							}
+						}
+					}
+					done <- ""
+				}()
+				n++
+				select {
+				case msg := <-done:
+					if msg != "" && len(fails) < 5 {
+						fails = append(fails, msg)
+					}
+				case <-time.After(5 * time.Second):
+					return n, append(fails, fmt.Sprintf("a=%d b=%d c=%d: RenderValue does not return", ia, ib, ic))
+				}
+			}
+		}
+	}
+	return n, fails
+}
+
+//@ bounded vFallbackGraphs RenderValue over every fallback graph on three author styles that are fixed, additive or range-restricted (1 728 graphs incl. cycles) x 3 start styles x the values -1, 1, 3, 7: returns a non-empty representation
+//@   props C19 C01
